@@ -47,9 +47,12 @@ type kinst struct {
 	err      error
 	liveExit bool
 	exitAt   int64
+	ivl      int64 // backoff interval that applies to this (failed) exit
 }
 
 type setWorld struct {
+	growing bool        // retry configured as a growing exponential backoff (per routine object)
+	streak  map[int]int // token -> failed exits since the routine object's last success
 	c       *core.Ctx
 	k       *keyed.Keyed[string, int]
 	rc      *keyed.KeyedRefCount[string, int]
@@ -94,6 +97,11 @@ func (w *setWorld) ctor(key string) (keyed.Routine, int) {
 	c := w.c
 	w.nextTok++
 	tok := w.nextTok
+	if c.S.PlanP(60) {
+		// a constructor may return no routine: the key is in the set like any other (release delay included), nothing runs for it
+		c.S.Count("probe:nil-routine")
+		return nil, tok
+	}
 	return func(ctx context.Context) error {
 		in := &kinst{n: len(w.insts) + 1, key: key, token: tok, ctx: ctx, entered: c.Tick()}
 		w.insts = append(w.insts, in)
@@ -121,6 +129,20 @@ func (w *setWorld) ctor(key string) (keyed.Routine, int) {
 		in.err = err
 		in.liveExit = ctx.Err() == nil
 		in.exitAt = c.S.Now()
+		in.ivl = retryNs
+		if w.growing && in.liveExit {
+			// each routine object has its own backoff: 1x, 2x, 4x, 4x, … the base interval, reset by a success
+			if err == nil {
+				w.streak[tok] = 0
+			} else {
+				k := w.streak[tok]
+				if k > 2 {
+					k = 2
+				}
+				in.ivl = retryNs << uint(k)
+				w.streak[tok]++
+			}
+		}
 		if in.liveExit {
 			c.S.Count("probe:routine-exited-on-its-own")
 		}
@@ -553,15 +575,15 @@ func (w *setWorld) checkRetries() {
 			delete(w.due, key) // a newer instance has entered
 			continue
 		}
-		if c.S.Now() > in.exitAt+retryNs && w.presence(key, true) == 1 {
-			c.Fail("C07.K3.retry-lost", "key %q stayed in the set with retry configured; its routine failed at t=%dms and only non-restarting calls followed, but at t=%dms (backoff %dms) no new instance has entered", key, in.exitAt/1e6, c.S.Now()/1e6, retryNs/1e6)
+		if c.S.Now() > in.exitAt+in.ivl && w.presence(key, true) == 1 {
+			c.Fail("C07.K3.retry-lost", "key %q stayed in the set with retry configured; its routine failed at t=%dms and only non-restarting calls followed, but at t=%dms (backoff %dms) no new instance has entered", key, in.exitAt/1e6, c.S.Now()/1e6, in.ivl/1e6)
 			return
 		}
 	}
 }
 
 func runSet(c *core.Ctx) {
-	w := &setWorld{c: c, model: map[string]*mEntry{}, byTok: map[int]*mEntry{}, due: map[string]*kinst{}, instOf: map[int]*kinst{}, voided: map[*kinst]bool{}}
+	w := &setWorld{c: c, model: map[string]*mEntry{}, byTok: map[int]*mEntry{}, due: map[string]*kinst{}, instOf: map[int]*kinst{}, streak: map[int]int{}, voided: map[*kinst]bool{}}
 	c.PanicOracle = "C06.P.panic"
 	if c.S.PlanP(550) {
 		w.delay = delayNs
@@ -579,6 +601,10 @@ func runSet(c *core.Ctx) {
 		opts = append(opts, keyed.WithReleaseDelay[string, int](time.Duration(w.delay)))
 	}
 	if w.retry && c.S.PlanP(200) {
+		// a growing exponential configuration: every routine object has its own backoff state
+		w.growing = true
+		opts = append(opts, keyed.WithRetry[string, int](&ubackoff.Backoff{BackoffKind: ubackoff.BackoffKind_BackoffKind_EXPONENTIAL, Exponential: &ubackoff.Exponential{InitialInterval: uint32(retryNs / 1e6), Multiplier: 2, MaxInterval: uint32(4 * retryNs / 1e6)}}))
+	} else if w.retry && c.S.PlanP(200) {
 		// an exponential configuration whose intervals never exceed the same bound (multiplier below one: they shrink)
 		opts = append(opts, keyed.WithRetry[string, int](&ubackoff.Backoff{BackoffKind: ubackoff.BackoffKind_BackoffKind_EXPONENTIAL, Exponential: &ubackoff.Exponential{InitialInterval: uint32(retryNs / 1e6), Multiplier: 0.5, MaxInterval: uint32(retryNs / 1e6)}}))
 	} else if w.retry && c.S.PlanP(400) {
